@@ -11,9 +11,12 @@ DATA = [0, 1, 5, 7, 13, 255, 0x7FFFFFFF, 0x80000000, 0xFFFFFFFF, 0x100000001]
 class C19(Prop):
     id = "C19"
     title = "Cross-thread notifications are never lost or merged; shutdown terminates"
-    lean_modules = ["NV.C19.Props", "NV.C19.Global", "NV.C19.Witness"]
+    lean_modules = ["NV.C19.Props", "NV.C19.Global", "NV.C19.Witness", "NV.C19.Negative"]
     theorems = ["NV.C19.model_satisfies_spec", "NV.C19.posts_delivered_exactly_once", "NV.C19.posts_multiset_preserved",
-                "NV.C19.post_refused_only_when_full", "NV.C19.no_lost_wakeup", "NV.C19.posted_completion_wakes_next_wait",
+                "NV.C19.post_refused_only_when_full", "NV.C19.no_lost_wakeup",
+                "NV.C19.createProg_eq", "NV.C19.wrapper_stores_eq", "NV.C19.wait_order_eq", "NV.C19.post_order_eq",
+                "NV.C19.join_poll_eq", "NV.C19.state_eventually_stopped_after_proc_returns",
+                "NV.C19.timed_join_returns_true_after_stop", "NV.C19.posted_completion_wakes_next_wait",
                 "NV.C19.queue_fifo_exactly_once", "NV.C19.queue_drop_policy", "NV.C19.queue_dequeue_oldest",
                 "NV.C19.timed_join_bounded", "NV.C19.timed_join_progress",
                 "NV.C19.timer_stop_terminates", "NV.C19.timer_stop_reaches_join", "NV.C19.no_callback_after_stop"]
@@ -22,7 +25,9 @@ class C19(Prop):
                         "NV.C19.Old.eventfd_loses_zero_post", "NV.C19.Old.posts_delivered_partial",
                         "NV.C19.Old.join_enters_pthread_join_early", "NV.C19.Old.not_timedJoinBoundedFull",
                         "NV.C19.Old.join_hangs",
-                        "NV.C19.Swapped.wakeup_erased", "NV.C19.Swapped.next_wait_sleeps", "NV.C19.Swapped.not_noLostWakeup"]
+                        "NV.C19.Swapped.wakeup_erased", "NV.C19.Swapped.next_wait_sleeps", "NV.C19.Swapped.not_noLostWakeup",
+                        "NV.C19.LateStore.state_stuck_running", "NV.C19.LateStore.stuck_forever",
+                        "NV.C19.LateStore.join_times_out", "NV.C19.LateStore.not_stateStopped"]
     consts = [("completionRingSize", "COMPLETION_RING_SIZE"),
               ("queueDropOldest", "ASYNC_QUEUE_DROP_OLDEST"),
               ("queueBlockWriter", "ASYNC_QUEUE_BLOCK_WRITER"),
@@ -106,7 +111,51 @@ class C19(Prop):
         wb, wa = self._stores_around(self._function_body(src, "worker_thread_proc", "order:worker_thread_proc"),
                                      r"->\s*proc\s*\(", "order:worker_thread_proc")
         fmt = lambda l: "[" + ", ".join(l) + "]"
+        import re
+        from nvlib import extract as X
+
+        def body_of(path, name, site):
+            m = re.search(r"\b%s\s*\([^;{]*\)\s*\{" % re.escape(name), path)
+            if not m:
+                raise X.TieBroken(site, "function %s not found" % name)
+            i, depth = m.end(), 1
+            while i < len(path) and depth:
+                depth += {"{": 1, "}": -1}.get(path[i], 0)
+                i += 1
+            b = re.sub(r"/\*.*?\*/", " ", path[m.end():i - 1], flags=re.S)
+            return re.sub(r"//[^\n]*", " ", b)
+
+        def pos(body, pat, site, which=0):
+            ms = list(re.finditer(pat, body))
+            if not ms:
+                raise X.TieBroken(site, "`%s` not found" % pat)
+            return ms[which].start()
+        ep = open(os.path.join(E.REPO, "lib/async/async_runtime_epoll.c")).read()
+        wb_ = body_of(ep, "async_runtime_wait", "order:async_runtime_wait")
+        rd = pos(wb_, r"\bread\s*\(\s*runtime->event_fd", "order:async_runtime_wait")
+        lk = pos(wb_, r"pthread_mutex_lock\s*\(\s*&runtime->ring_lock", "order:async_runtime_wait")
+        ul = pos(wb_, r"pthread_mutex_unlock\s*\(\s*&runtime->ring_lock", "order:async_runtime_wait", -1)
+        rearm = pos(wb_, r"\bwrite\s*\(\s*runtime->event_fd", "order:async_runtime_wait")
+        pb_ = body_of(ep, "async_runtime_post_completion", "order:async_runtime_post_completion")
+        push = pos(pb_, r"ring_count\s*\+\+", "order:async_runtime_post_completion")
+        bell = pos(pb_, r"\bwrite\s*\(\s*runtime->event_fd", "order:async_runtime_post_completion")
+        jb_ = body_of(src, "async_worker_join", "const:async_worker_join")
+        m1 = re.search(r"struct\s+timespec\s+\w+\s*=\s*\{\s*(\d+)\s*,\s*(\d+)\s*\}", jb_)
+        m2 = re.search(r"elapsed_ms\s*\+=\s*(\d+)\s*;", jb_)
+        if not m1 or not m2:
+            raise X.TieBroken("const:async_worker_join", "poll sleep / elapsed step of the timed join not recognised")
+        b = lambda v: "true" if v else "false"
         return "\n".join([
+            "/-- C: in `async_runtime_wait` the doorbell `read(event_fd)` stands before `pthread_mutex_lock(&ring_lock)` -/",
+            "def waitReadsBellBeforeLock : Bool := " + b(rd < lk),
+            "/-- C: in `async_runtime_wait` the re-arm `write(event_fd)` stands before the last `pthread_mutex_unlock` -/",
+            "def waitRearmsUnderLock : Bool := " + b(lk < rearm < ul),
+            "/-- C: in `async_runtime_post_completion` the push (`ring_count++`) stands before the doorbell `write(event_fd)` -/",
+            "def postPushesBeforeBell : Bool := " + b(push < bell),
+            "/-- C: `struct timespec sleep_time = { s, ns }` of the timed join, in ns -/",
+            "def joinSleepNs : Nat := %d" % (int(m1.group(1)) * 10 ** 9 + int(m1.group(2))),
+            "/-- C: `elapsed_ms += N` of the timed join -/",
+            "def joinElapsedStepMs : Nat := %d" % int(m2.group(1)),
             "/-- C: values stored into `worker->state` in `async_worker_create` BEFORE the `pthread_create` call, in order -/",
             "def createStoresBeforeSpawn : List Nat := " + fmt(cb),
             "/-- C: values stored into `worker->state` in `async_worker_create` AFTER the `pthread_create` call, in order -/",
